@@ -316,3 +316,53 @@ package lang
 //@   at call dynamic:GoFunctions[]#1 assert !(p.Scope.Id != ShellProcess.Id && $isPrivate(name, p.FileRef)) && imp($isAlias(name), parsedAlias || p.Parent.Name.name == "alias") && !$isFunc(name)
 //@   at call (*Fork).Execute#2 assert err == nil
 //@   loop 1 step imp(old(parsedAlias), parsedAlias)
+
+// ---- C11: variable scoping (lang/variables.go, Fork) -------------------------------------------------------
+// $varVal(table, name): the value stored under name in that table, nil if absent (trusted getter
+// contract for getValueValue; its locking is C32's subject).
+//@ spec $varVal(v int, name string) any
+//@ func (*Variables).getValueValue [C11] trusted
+//@   modifies nothing
+//@   ensures result == $varVal(v, name)
+
+//@ spec $reserved(n string) bool = n == _VAR_ENV || n == _VAR_GLOBAL || n == _VAR_MODULE || n == _VAR_SELF || n == _VAR_ARGV || n == _VAR_ARGS || n == _VAR_PARAMS || n == _VAR_MUREX_EXE || n == _VAR_MUREX_ARGV || n == _VAR_MUREX_ARGS || n == _VAR_HOSTNAME || n == _VAR_PWD || n == _VAR_OLDPWD || n == _VAR_HOME || n == _VAR_TMPDIR || n == _VAR_COLUMNS || n == _VAR_LINES || n == _VAR_RANDOM || n == _VAR_USER || n == _VAR_LOGNAME || n == "0"
+//@ spec $ordinary(n string) bool = !$reserved(n) && !($atoiOk(n) && $atoi(n) > 0)
+
+// Lookup order for an ordinary name: the local table, then the global table (then the environment).
+// The global table itself only consults its own map.
+//@ func (*Variables).getValue [C11]
+//@   scope functional
+//@   check none
+//@   requires v != nil && GlobalVariables != nil
+//@   ensures imp($ordinary(name) && old(v.global), result1 == nil && result == $varVal(v, name))
+//@   ensures imp($ordinary(name) && !old(v.global) && $varVal(v, name) != nil, result1 == nil && result == $varVal(v, name))
+//@   ensures imp($ordinary(name) && !old(v.global) && $varVal(v, name) == nil && $varVal(old(GlobalVariables), name) != nil, result1 == nil && result == $varVal(old(GlobalVariables), name))
+//@   at call os.LookupEnv#1 assert !v.global && $varVal(v, name) == nil && $varVal(GlobalVariables, name) == nil
+
+//@ func errVarNotExist [C11 C19]
+//@   modifies nothing
+//@   ensures result != nil
+
+// Unset removes the name from THIS table only; every other entry is unchanged; absent => error.
+//@ func (*Variables).Unset [C11 C19 C32]
+//@   requires v != nil && v.vars != nil
+//@   modifies mapof(v.vars)
+//@   ensures imp(old@lock1(v.vars[name]) == nil, result != nil)
+//@   ensures imp(result == nil, !has(v.vars, name))
+//@   ensures forallstr(k, imp(k != name || result != nil, has(v.vars, k) == old@lock1(has(v.vars, k)) && v.vars[k] == old@lock1(v.vars[k])))
+
+// Fork: a function fork gets a fresh variable table and is its own scope; every other fork shares
+// the caller's table and scope.
+//@ func NewVariables [C11] trusted
+//@   fresh
+//@   modifies nothing
+//@   ensures result != nil
+//@ func (*Process).Fork [C11]
+//@   scope functional
+//@   check none
+//@   requires p != nil
+//@   at store Variables#1 assert bit(flags, F_FUNCTION) && fresh(fork.Variables)
+//@   at store Variables#2 assert !bit(flags, F_FUNCTION) && fork.Variables == p.Variables
+//@   at store Variables#3 assert !bit(flags, F_FUNCTION) && fork.Variables == p.Variables
+//@   at store Scope#1 assert bit(flags, F_FUNCTION) && fork.Scope == fork.Process
+//@   at store Scope#2 assert !bit(flags, F_FUNCTION) && fork.Scope == p.Scope
